@@ -59,7 +59,9 @@ SLICE_TEXTS = ['', 'a', 'a\n', '\n', ' ', 'aB', 'a\nB', 'a\nB\n', '\n\n', ' a \n
 
 RX_REPL = ['a', '.', 'a*', '^', '$', 'B$', '^a', r'\s', r'\n', '(a)(B)', ' ', 'x*', r'\.', 'a|B', '[^a]', r'a\Z']
 REPLS = ['', 'x', r'\n', r'\1', 'x\\ny', r'\\', 'aa']
-RX_MATCH = ['a', '.', 'a*', '^a', 'a$', '^$', 'a|B', r'\s', '(a)(B)', r'\.', r'\(', 'b', r'a\nB', '^.$', r'\n$', '']
+RX_MATCH = ['a', '.', 'a*', '^a', 'a$', '^$', 'a|B', r'\s', '(a)(B)', r'\.', r'\(', 'b', r'a\nB', '^.$', r'\n$', '',
+            # a full match exists, but the FIRST match at position 0 is a proper prefix (alternation order, non-greedy): fullmatch must backtrack
+            'a|aB', 'a*?', '.*?', 'a??B?', r'(a|aB)(\n)?']
 
 LM_SIMPLE = [('contents', ('empty',)), ('contents', ('matches', False, False, 'a')), ('contents', ('matches', True, False, 'a')),
              ('contents', ('equals', 'str', 'a')), ('contents', ('equals', 'str', '')), ('contents', ('matches', False, True, 'b')),
@@ -68,7 +70,8 @@ LM_SIMPLE = [('contents', ('empty',)), ('contents', ('matches', False, False, 'a
              ('const', True), ('const', False), ('not', ('contents', ('empty',))),
              ('and', [('line-num', ('cmp', '>=', 2)), ('contents', ('matches', False, False, 'a'))]),
              ('or', [('line-num', ('cmp', '==', 1)), ('contents', ('empty',))]),
-             ('contents', ('num-lines', ('cmp', '==', 1))), ('contents', ('num-lines', ('cmp', '==', 0)))]
+             ('contents', ('num-lines', ('cmp', '==', 1))), ('contents', ('num-lines', ('cmp', '==', 0))),
+             ('contents', ('matches', True, False, 'a|aB')), ('contents', ('matches', True, True, 'b??.*?'))]
 
 
 def transformers(tier):
@@ -84,7 +87,7 @@ def transformers(tier):
             for pres in (False, True):
                 out.append(('replace', rx, rep, pres, at))
     out += [('strip', None), ('strip', 'space'), ('strip', 'new-lines'), ('case', 'upper'), ('case', 'lower'), ('identity',)]
-    for rx in ('a', 'B$', '^$', '.', r'\s', 'a|B', ''):
+    for rx in ('a', 'B$', '^$', '.', r'\s', 'a|B', '', 'a|aB', '.*?'):
         out += [('grep', False, rx), ('grep', True, rx)]
     for lm in LM_SIMPLE:
         out.append(('filter', lm))
